@@ -1,6 +1,6 @@
 use proc_macro2::TokenStream as TokenStream2;
 use quote::quote;
-use syn::{Data, DataEnum, DeriveInput, Error, Fields};
+use syn::{ext::IdentExt, Data, DataEnum, DeriveInput, Error, Fields};
 
 use crate::utils;
 
@@ -18,7 +18,7 @@ pub(crate) fn derive_custom_type(input: proc_macro::TokenStream) -> proc_macro::
 
 fn derive_custom_type_impl(input: DeriveInput) -> Result<TokenStream2, Error> {
     let name = &input.ident;
-    let name_str = name.to_string();
+    let name_str = name.unraw().to_string();
     let generics = &input.generics;
     let (impl_generics, ty_generics, where_clause) = generics.split_for_impl();
     let crate_path = utils::parse_crate_path(&input.attrs)?;
